@@ -3,7 +3,7 @@
    the comparisons and heartbeat conditions that the translator read from pipeline/event.go: if the
    source changes so that a side condition below fails (e.g. the heartbeat condition is inverted
    again), this file stops compiling. *)
-From Verif Require Import Base.Sx Model.Pool Model.PoolGlue Gen.PoolGen Proofs.Pool Proofs.PoolLm Proofs.PoolStd.
+From Verif Require Import Base.Sx Model.Pool Model.PoolGlue Gen.PoolGen Proofs.Pool Proofs.PoolLm Proofs.PoolStd Proofs.PoolHb.
 From Coq Require Import Lia ZifyBool Bool List ZArith.
 Import ListNotations.
 Local Open Scope Z_scope.
@@ -14,6 +14,18 @@ Proof. cbn [fits cap lm_cfg]. unfold pool_lm_fits. lia. Qed.
 Lemma gen_lm_tick_fires n : tickc (lm_cfg n) true true = true.
 Proof. reflexivity. Qed.
 Lemma gen_std_tick_fires n : tickc (std_cfg n) true true = true.
+Proof. reflexivity. Qed.
+
+(* the heartbeat's life cycle as read from the source: get() starts it on every path to Cond.Wait and its loop has no way
+   out but the stop guard.  [reflexivity] fails as soon as the translator reports an exit path (pool_*_hb_forever = false)
+   or a path to Cond.Wait that does not start the heartbeat (pool_*_hb_starts = false) *)
+Lemma gen_lm_hb_starts : hb_starts lm_hcfg = true.
+Proof. reflexivity. Qed.
+Lemma gen_lm_hb_forever : hb_forever lm_hcfg = true.
+Proof. reflexivity. Qed.
+Lemma gen_std_hb_starts : hb_starts std_hcfg = true.
+Proof. reflexivity. Qed.
+Lemma gen_std_hb_forever : hb_forever std_hcfg = true.
 Proof. reflexivity. Qed.
 
 (* ---- C05 ----------------------------------------------------------------------------------------- *)
@@ -138,3 +150,110 @@ Example pool_std_nonvacuous :
                SBClaim 0 0; SBCas 0 0 true; SBPut 0; SBF1 0; SBDec 0; SBBc 0; SReg 2] = Some s /\
             gpc_of s 2 = GSleep 0 /\ pool_std_avail (s_inuse s) 1 = true /\ f1 (slot_of s 0) = true.
 Proof. vm_compute. eexists. repeat split. Qed.
+
+(* ---- C04 (pool clause): the heartbeat's life cycle -------------------------------------------------- *)
+(* The two theorems above let the heartbeat tick whenever it likes; they say nothing about a heartbeat goroutine that is
+   not there.  In the layered system (Model/Pool.v: the goroutine is started once, by the slow path of get(), and may be
+   gone for good when its loop has a way out) with the two facts regenerated from the Go AST: in every reachable state with
+   a getter asleep on the condition variable and free capacity the heartbeat goroutine is RUNNING, and non-environment steps
+   of the layered system containing at most one heartbeat start wake the getter *)
+Lemma pool_no_stuck_waiter_hb_lowmem :
+  forall (n : Z) (ls : list (hlab llabel)) (s : hst lst) (g : Z),
+    1 <= n -> lhrun (lm_cfg n) lm_hcfg lhinit ls = Some s ->
+    lpc_of (h_s s) g = LSleep -> pool_lm_avail (l_inuse (h_s s)) n = true ->
+    h_hb s = HbRun /\
+    exists ls' s', l_nonenv ls' /\ (l_ticks ls' <= 1)%nat /\ lhrun (lm_cfg n) lm_hcfg s (map HL ls') = Some s' /\ lpc_of (h_s s') g <> LSleep.
+Proof.
+  intros n ls s g Hn H Hg Ha.
+  apply (lm_hb_no_stuck_waiter (lm_cfg n) lm_hcfg ls s g); try assumption;
+    [cbn; lia|apply gen_lm_fits_sound|apply gen_lm_tick_fires|apply gen_lm_hb_starts|apply gen_lm_hb_forever].
+Qed.
+
+Lemma pool_no_stuck_waiter_hb_std :
+  forall (n : Z) (ls : list (hlab slabel)) (s : hst sst) (g x : Z),
+    1 <= n -> shrun (std_cfg n) std_hcfg (shinit (std_cfg n)) ls = Some s ->
+    gpc_of (h_s s) g = GSleep x -> pool_std_avail (s_inuse (h_s s)) n = true ->
+    h_hb s = HbRun /\
+    exists ls' s', s_nonenv ls' /\ (s_ticks ls' <= 1)%nat /\ shrun (std_cfg n) std_hcfg s (map HL ls') = Some s' /\ gpc_of (h_s s') g = GWoken x.
+Proof.
+  intros n ls s g x Hn H Hg Ha.
+  apply (std_hb_no_stuck_waiter (std_cfg n) std_hcfg ls s g x); try assumption;
+    [apply gen_std_tick_fires|apply gen_std_hb_starts|apply gen_std_hb_forever].
+Qed.
+
+(* LIVENESS UNDER HEARTBEAT FAIRNESS.  The assumption the bounded-resumption claim rests on, stated explicitly: the running
+   heartbeat ticks again and again (infinitely many iterations: scheduler fairness and wall-clock time are outside the
+   model).  For EVERY schedule - steps of the environment included: new get() and back() calls, any interleaving - a getter
+   does not stay inside Cond.Wait() across more than two heartbeat iterations that find capacity free (the first of them
+   may have loaded the waiter count before the getter registered): a run during which it stays asleep contains at most two
+   of them.  Hence: infinitely many ticks + capacity that stays free => the getter is woken *)
+Lemma pool_fair_heartbeat_wakes_lowmem :
+  forall (n : Z) (ls : list llabel) (s : lst) (g : Z) (ls' : list llabel) (s' : lst),
+    1 <= n -> lrun (lm_cfg n) linit ls = Some s -> lpc_of s g = LSleep ->
+    lrun_asleep (lm_cfg n) g s ls' = Some s' -> (l_avail_ticks ls' <= 2)%nat.
+Proof.
+  intros n ls s g ls' s' Hn H Hg Ha.
+  apply (lm_fair_heartbeat_wakes (lm_cfg n)) with (g := g) (ls := ls) (s := s) (s' := s'); try assumption;
+    [cbn; lia|apply gen_lm_fits_sound|apply gen_lm_tick_fires].
+Qed.
+
+Lemma pool_fair_heartbeat_wakes_std :
+  forall (n : Z) (ls : list slabel) (s : sst) (g x : Z) (ls' : list slabel) (s' : sst),
+    1 <= n -> srun (std_cfg n) (sinit (std_cfg n)) ls = Some s -> gpc_of s g = GSleep x ->
+    srun_asleep (std_cfg n) g s ls' = Some s' -> (s_avail_ticks ls' <= 2)%nat.
+Proof.
+  intros n ls s g x ls' s' Hn H Hg Ha.
+  apply (std_fair_heartbeat_wakes (std_cfg n) (gen_std_tick_fires n)) with (g := g) (x := x) (ls := ls) (s := s) (s' := s'); assumption.
+Qed.
+
+(* WITHOUT the fact "the heartbeat's loop has no way out" (hcfg_exiting: the goroutine may return; the Once never starts it
+   again): one ordinary episode of back-pressure starts the heartbeat, the pool falls idle, the heartbeat loads waiters = 0
+   and returns; then the lost wake-up (capacity 1: the holder's back() falls between the getter's availability check and
+   its Wait).  The state reached has getter 2 asleep, the pool empty, the heartbeat gone - and NO step other than one of the
+   environment is enabled: every non-environment run from it is empty.  The getter sleeps for ever *)
+Definition hb_exit_trace : list (hlab llabel) :=
+  map HL [LmInc 1 1; LmEnter 1; LmInc 2 2; LmDec 2; LmWInc 2; LmLock 2; LmCheck 2 false; LmReg 2; LmBDec 1; LmBBc 1;
+          LmWake 2; LmUnlock 2; LmWDec 2; LmInc 2 1; LmEnter 2; LmBDec 2; LmBBc 2; LmTickW 0]
+  ++ [HExit]
+  ++ map HL lost_wakeup_trace.
+
+Lemma pool_heartbeat_exit_refuted :
+  exists (ls : list (hlab llabel)) (s : hst lst),
+    lhrun (lm_cfg 1) hcfg_exiting lhinit ls = Some s /\ lpc_of (h_s s) 2 = LSleep /\ pool_lm_avail (l_inuse (h_s s)) 1 = true /\
+    h_hb s = HbGone /\
+    forall ls' s', lh_nonenv ls' -> lhrun (lm_cfg 1) hcfg_exiting s ls' = Some s' -> ls' = [] /\ s' = s.
+Proof.
+  exists hb_exit_trace.
+  destruct (lhrun (lm_cfg 1) hcfg_exiting lhinit hb_exit_trace) as [s|] eqn:E; [|vm_compute in E; discriminate].
+  exists s. vm_compute in E. inversion E; subst; clear E. repeat split.
+  - destruct ls' as [|l r]; [reflexivity|]. exfalso.
+    unfold lh_nonenv in H. cbn [forallb] in H. apply andb_true_iff in H. destruct H as [Hl _]. apply negb_true_iff in Hl.
+    unfold lhrun in H0. cbn [hrun] in H0.
+    match type of H0 with context [hstep _ _ _ _ ?s0 l] =>
+      assert (Hn : lhstep (lm_cfg 1) hcfg_exiting s0 l = None) end.
+    { apply (lm_gone_no_step (lm_cfg 1) hcfg_exiting 2); [|exact Hl]. unfold lm_gone_inv. repeat split.
+      intros g' Hg'. unfold lpc_of. cbn [h_s l_thr fget]. destruct (g' =? 2) eqn:E2; [lia|]. destruct (g' =? 1); reflexivity. }
+    unfold lhstep in Hn. rewrite Hn in H0. discriminate.
+  - apply (lm_gone_stuck (lm_cfg 1) hcfg_exiting 2 ls'); [|exact H|exact H0]. unfold lm_gone_inv. repeat split.
+    intros g' Hg'. unfold lpc_of. cbn [h_s l_thr fget]. destruct (g' =? 2) eqn:E2; [lia|]. destruct (g' =? 1); reflexivity.
+Qed.
+
+(* non-vacuity: (1) with the generated facts the same trace is NOT a run (the heartbeat's return is not a step), and without
+   the return it reaches the sleeping state with the heartbeat running; (2) fairness: from the lost wake-up one heartbeat
+   iteration that finds capacity free leaves only the waking Broadcast to the heartbeat (both continuations that keep
+   the getter asleep are impossible); (3) the bound 2 is reached when the heartbeat loaded the waiter count before the
+   getter registered *)
+Example pool_heartbeat_lifecycle_nonvacuous :
+  lhrun (lm_cfg 1) lm_hcfg lhinit hb_exit_trace = None /\
+  (exists s, lhrun (lm_cfg 1) lm_hcfg lhinit (filter (fun l => match l with HExit => false | _ => true end) hb_exit_trace) = Some s /\
+             lpc_of (h_s s) 2 = LSleep /\ h_hb s = HbRun /\ pool_lm_avail (l_inuse (h_s s)) 1 = true) /\
+  (exists s, lrun (lm_cfg 1) linit lost_wakeup_trace = Some s /\ lpc_of s 2 = LSleep /\
+             lrun_asleep (lm_cfg 1) 2 s [LmTickW 1; LmTickA true] <> None /\
+             lrun_asleep (lm_cfg 1) 2 s [LmTickW 1; LmTickA true; LmTickFire] = None /\
+             lrun_asleep (lm_cfg 1) 2 s [LmTickW 1; LmTickA true; LmTickEnd] = None) /\
+  (exists s, lrun (lm_cfg 1) linit [LmInc 1 1; LmEnter 1; LmInc 2 2; LmDec 2; LmTickW 0; LmWInc 2; LmLock 2; LmCheck 2 false;
+                                    LmBDec 1; LmBBc 1; LmReg 2] = Some s /\ lpc_of s 2 = LSleep /\
+             lrun_asleep (lm_cfg 1) 2 s [LmTickA true; LmTickEnd; LmTickW 1; LmTickA true] <> None).
+Proof.
+  vm_compute. repeat split; try (eexists; repeat split; try reflexivity; discriminate).
+Qed.
